@@ -129,9 +129,15 @@ def gen_exec(rng):
     return ["exec"] + toks
 
 
+TAB_LINES = ["tf ", "tf s", "tf sha256 ", "tf sha256 0xa", "tf add 1 ", "help st x", "help ", "exec OP_", "exec OP_1 OP_AD", "exec  ", "st", "", "  tf  x  y ",
+             "unknown cmd here", "tf\tx", "exec 'OP_1 OP", "print extra words here"]
+
+
 def gen_raw(rng):
     k = rng.below(12)
     cmd = rng.choice(["tf echo", "exec", "tf sha256", "tf hex", "exec OP_1"])
+    if rng.chance(15):
+        return [["raw", rng.choice(TAB_LINES)]]
     if k == 0:
         return [["raw", cmd + " 'open quote"], ["raw", "second line"], ["raw", "closing' done"]]
     if k == 1:
@@ -295,6 +301,15 @@ def gen_btcdeb_interactive(rng):
     n = rng.weighted([(3, rng.range(1, 6)), (5, rng.range(6, 25)), (2, rng.range(25, 60))])
     scn["sched"] = gen_sched(rng, n)
     scn["faults"] = gen_faults(rng, len(scn["sched"]), dataset=bool(scn.get("spend")))
+    if rng.chance(30):
+        # the user presses TAB while typing some of the lines (cursor anywhere in the line)
+        scn["tabs"] = {}
+        for li in range(len(scn["sched"])):
+            if rng.chance(25):
+                ln = session.render_item(scn["sched"][li]) or ""
+                scn["tabs"][str(li)] = [rng.weighted([(3, len(ln)), (2, rng.below(len(ln) + 1)), (1, 0)]) for _ in range(rng.range(1, 2))]
+    if rng.chance(20):
+        scn["winsize"] = [rng.choice([0, 1, 2, 5, 7, 9, 10, 12, 20, 40, 79, 80, 132, 1000, 65535]), rng.choice([0, 1, 24, 50])]
     if rng.chance(12):
         # crash / restart: the next session loads whatever this one managed to write to the history file,
         # cut at an arbitrary byte (torn last write) - only the durable bytes survive
@@ -531,6 +546,10 @@ def world_of(scn):
     tool = scn.get("tool", "btcdeb")
     if tool == "btcdeb":
         w = session.build_world(scn, observe=scn.get("observe", False))
+        if scn.get("tabs"):
+            w["tabs"] = dict(scn["tabs"])       # no observers in C15 sessions: line index == schedule index
+        if scn.get("winsize"):
+            w["winsize"] = list(scn["winsize"])
         if scn.get("script_on_stdin") and not any(f["kind"] == "STDIN" for f in scn.get("faults", [])):
             pass
         return w
